@@ -252,6 +252,7 @@ pub fn plan(property: &str, tier: Tier) -> Option<Plan> {
                 jobs.push(g("shapes/pending", prof, if q { 5 } else { 7 }).armed(&a));
                 jobs.push(g("shapes/bindvars", prof, if q { 6 } else { 8 }).armed(&a));
                 jobs.push(g("shapes/readopt", prof, if q { 4 } else { 7 }).armed(&a));
+                jobs.push(g("c05/on_update", prof, if q { 5 } else { 8 }).armed(&a));
                 // the other worlds keep to the usage rules too: their panics are C04's as well (core::also_as_c04)
                 jobs.push(JobDef::new("vars", "c08/dropped", prof, if q { 6 } else { 8 }).armed(&a));
                 jobs.push(JobDef::new("vars", "c08/late", prof, if q { 5 } else { 7 }).armed(&a));
@@ -287,6 +288,9 @@ pub fn plan(property: &str, tier: Tier) -> Option<Plan> {
             jobs.push(g("shapes/bindvars", "rel", if q { 6 } else { 8 }).armed(&a));
             jobs.push(g("shapes/readopt", "rel", if q { 4 } else { 7 }).armed(&a));
             jobs.push(g("shapes/readopt", "rel", if q { 4 } else { 7 }).armed(&a));
+            // Incr::on_update handlers on inner nodes that lose their last observer / their bind
+            jobs.push(g("c05/on_update", "rel", if q { 6 } else { 9 }).armed(&a));
+            jobs.push(g("c05/on_update", "dbg", if q { 5 } else { 8 }).armed(&a));
             ("model_checking", mc_rule, vec!["dependency cone computed syntactically by the harness from the program and the reference's current bind right-hand sides"], if q { 60 } else { 900 })
         }
         "C06" => {
